@@ -176,7 +176,12 @@ def classify_phase(prop, spec, ph, crashed_expected=False):
         harness = '/verif/sim/' in tr.split('Traceback')[-1].splitlines()[-3] if len(tr.split('Traceback')[-1].splitlines()) >= 3 else False
         if harness:
             return [], other, 'exception inside the harness: ' + tr[-800:]
-        if not benign:
+        # C05/C06/C07 speak about what every mini-batch emits: an exception raised after the streaming phase
+        # (3MR post-processing, summaries) is outside their statements and only counted
+        downstream = prop in ('C05', 'C06', 'C07') and v.get('stream_returned')
+        if downstream:
+            other['downstream-exception:' + exception_key(tr)[:80]] = 1
+        elif not benign:
             vio.append(('task-exception', exception_key(tr), {'trace': tr[-1200:]}))
     if st == 'exit' and task == 'ranking' and v.get('expected_batches', 0) > 0:
         vio.append(('unexpected-exit', 'exit', {'exit_code': v.get('exit_code'), 'expected_batches': v.get('expected_batches')}))
@@ -297,10 +302,14 @@ def spec_size(spec):
     return (len(wl['lines']), len(wl['header']), spec['cli'].get('num_threads', 1), len(json.dumps(spec, default=repr)))
 
 
-def shrink(pool, spec, fails_many, rounds=30, max_cands=160):
+def shrink(pool, spec, fails_many, rounds=30, max_cands=160, wall=45.0):
     """fails_many(list of specs) -> list of bool (same violation class reproduced)."""
+    import time
     cur = spec
+    t0 = time.time()
     for _ in range(rounds):
+        if time.time() - t0 > wall:
+            break
         cands = shrink_candidates(cur)[:max_cands]
         if not cands:
             break
